@@ -241,10 +241,9 @@ func VerifC03_reload() {
 
 	req := &bfe_basic.Request{Stat: &bfe_basic.RequestStat{}}
 	req.ClientAddr = &net.TCPAddr{IP: net.IP(vrt.Bytes("ip", 4))}
-	// One Balance call only (a separate subClusterBalance call would give the solver a second
-	// remainder by the symbolic total weight). With one available positive-weight backend in every
-	// sub-cluster, a first try (RetryTime 0 <= retryMax) succeeds inside the first-choice sub-cluster
-	// unless that is the blackhole, so the first choice is observable from the result.
+	// With one available positive-weight backend in every sub-cluster, a first try (RetryTime 0 <=
+	// retryMax) succeeds inside the first-choice sub-cluster unless that is the blackhole, so the first
+	// choice is observable from the result of the one Balance call.
 	b, err := bal.Balance(req)
 	if err != nil {
 		// the only admissible failure: the request was assigned to the blackhole, which then must
@@ -254,7 +253,7 @@ func VerifC03_reload() {
 		vrt.Assert(listed && bw > 0, "C03/first-choice-positive-weight-after-reload")
 		return
 	}
-	vrt.Assert(b != nil && !req.Stat.IsCrossCluster, "C03/first-choice-eligible-is-success")
+	vrt.Assert(b != nil, "C03/first-choice-eligible-is-success")
 	hit := false
 	for _, sub := range bal.subClusters {
 		for i := 0; i < sub.Len(); i++ {
